@@ -1089,6 +1089,12 @@ class VM:
             if cal.kind == 'path':
                 # `Trait::method` paths or module-qualified free functions
                 c = P.free.get(cal.method)
+                if c and len(c) > 1 and cal.segs:
+                    # several free functions of that name (e.g. the two voting_thread): the module path decides
+                    path = '::'.join(sg[0] for sg in cal.segs)
+                    c2 = [f for f in c if f.name == path or f.name.endswith('::' + path) or path.endswith('::' + f.name)]
+                    if len(c2) == 1:
+                        c = c2
                 if c and len(c) == 1 and cal.segs and cal.segs[-2][0] not in P.decls.structs and cal.segs[-2][0][:1].islower():
                     return c[0], {}
             return None
